@@ -1,4 +1,4 @@
-from pedal.core.report import MAIN_REPORT
+from pedal.core.report import MAIN_REPORT, Report
 
 
 def make_resolver(func, report=None):
@@ -16,7 +16,13 @@ def make_resolver(func, report=None):
         report = MAIN_REPORT
 
     def resolver_wrapper(*args, **kwargs):
-        report.execute_hooks('pedal.resolvers', 'resolve')
+        # Trigger the hooks of the report actually being resolved
+        active_report = kwargs.get('report')
+        if active_report is None and args and isinstance(args[0], Report):
+            active_report = args[0]
+        if active_report is None:
+            active_report = report
+        active_report.execute_hooks('pedal.resolvers', 'resolve')
         return func(*args, **kwargs)
 
     return resolver_wrapper
